@@ -174,7 +174,7 @@ func c09Chain(d int, raise string, h int, hc string, handlerReturns bool, inLoop
 }
 
 func checkC09(c *Ctx) {
-	c.rule = "programs: (a) fixed families: call chains of depth 0..4 whose innermost body raises one of 16 raise kinds (a constructor called with too few arguments / whose body raises / faults, 抛出 of 异常 / custom type, ÷0, index, key, undefined name, type error, failing 转换数值, missing method, arity, malformed % template, % argument count, number-like invalid identifier - the last three only judged where no handler of 异常 is on the way) optionally inside a loop, with a matching or non-matching handler (preceded by a wrong-class handler) at every level 0..depth, with/without 输出 in the handler, function or type-method callers; marks before/after every call, follow-up probes of locals, parameters, 其 and a further call after the handler ran; variants probing callee locals that must be undefined; nested families where the handler itself raises and a handler further out takes over; (b) random programs with 抛出, runtime faults, handlers on methods and program; (c) uncaught custom exceptions whose 内容 is a text, integer, boolean, list, dictionary or decimal, raised directly, through one / two methods or from a handler: the program ends with that value as its message (written down for texts and integers, non-empty otherwise); (d) endurance: 90000 exceptions handled one after the other (a fault inside a nested expression of a method, a throw that crosses an argument and an index, a fault in a type method, a handler in a callee of the looping method) must leave the program running and yield the value written down; a chain of calls descending 1 ... 25000 levels with the same handler at every level (built-in and custom exception class): the handler that runs is the one of the deepest body entered, also at the interpreter's own call limit. Oracle: reference evaluator; plus quiescent invariants after every successful run: call stack empty and every module scope at depth 0 (hooks H3/H4). distinct_nontrivial = distinct (family parameters / feature set, outcome kind)"
+	c.rule = "programs: (a) fixed families: call chains of depth 0..4 whose innermost body raises one of 16 raise kinds (a constructor called with too few arguments / whose body raises / faults, 抛出 of 异常 / custom type, ÷0, index, key, undefined name, type error, failing 转换数值, missing method, arity, malformed % template, % argument count, number-like invalid identifier - the last three only judged where no handler of 异常 is on the way) optionally inside a loop, with a matching or non-matching handler (preceded by a wrong-class handler) at every level 0..depth, with/without 输出 in the handler, function or type-method callers; marks before/after every call, follow-up probes of locals, parameters, 其 and a further call after the handler ran; variants probing callee locals that must be undefined; nested families where the handler itself raises and a handler further out takes over; (b) random programs with 抛出, runtime faults, handlers on methods and program; (c) uncaught custom exceptions whose 内容 is a text, integer, boolean, list, dictionary or decimal, raised directly, through one / two methods or from a handler: the program ends with that value as its message (written down for texts and integers, non-empty otherwise); (c2) a definition whose evaluation raises (a default property that faults / throws) is taken by the handler of its body: main program, method body, imported module body, module behind a relay; (d) endurance: 90000 exceptions handled one after the other (a fault inside a nested expression of a method, a throw that crosses an argument and an index, a fault in a type method, a handler in a callee of the looping method) must leave the program running and yield the value written down; a chain of calls descending 1 ... 25000 levels with the same handler at every level (built-in and custom exception class): the handler that runs is the one of the deepest body entered, also at the interpreter's own call limit. Oracle: reference evaluator; plus quiescent invariants after every successful run: call stack empty and every module scope at depth 0 (hooks H3/H4). distinct_nontrivial = distinct (family parameters / feature set, outcome kind)"
 	c.assumptions = []string{"message text of runtime faults is not compared (U7)", "handlers only use 其, parameters and literals (U1)"}
 	rng := c.Rand("c09")
 	var progs []*zr.Program
@@ -244,6 +244,29 @@ func checkC09(c *Ctx) {
 	}
 	c09Consistency(c)
 	c09Messages(c)
+	// a definition is evaluated ahead of the other statements of its body; when evaluating it raises
+	// (a default property that divides by zero, calls a method that throws, reads an undefined name)
+	// the body's own handler takes it - in the main program, in a method body and in the body of
+	// an imported module alike, and the importer / caller goes on
+	{
+		raises := map[string]string{
+			"div0":      "定义参数：\n\t其比率 = 10 / 0\n",
+			"undefined": "定义参数：\n\t其比率 = 缺失名 + 1\n",
+			"throws":    "如何取口？\n\t抛出异常：“没有端口”！\n定义参数：\n\t其端口 = （取口）\n",
+			"index":     "定义参数：\n\t其首 = 【1】#5\n",
+		}
+		cases := []handFiles{}
+		for _, rn := range SortedKeys(raises) {
+			body := "如何先？\n\t输出 7\n" + raises[rn] + "（显示：“not-reached”）\n\n拦截异常：\n\t（显示：“handled”）\n"
+			cases = append(cases,
+				handFiles{"definition-fault/" + rn + "/main-program", map[string]string{"main.zn": body + "\t输出 “caught”\n"}, `text("caught")`},
+				handFiles{"definition-fault/" + rn + "/method-body", map[string]string{"main.zn": "如何体？\n\t" + strings.ReplaceAll(strings.TrimSuffix(body, "\n"), "\n", "\n\t") + "\n\t\t输出 “caught”\n输出【（体），“主完”】\n"}, `list[text("caught"),text("主完")]`},
+				handFiles{"definition-fault/" + rn + "/module-body", map[string]string{"main.zn": "导入“模”\n输出【（先），“主完”】\n", "模.zn": body}, `list[num(7),text("主完")]`},
+				handFiles{"definition-fault/" + rn + "/module-behind-relay", map[string]string{"main.zn": "导入“中”\n输出（转）\n", "中.zn": "导入“模”\n如何转？\n\t输出【（先），“中完”】\n", "模.zn": body}, `list[num(7),text("中完")]`},
+			)
+		}
+		c.runHandFiles("definition-fault", cases)
+	}
 	// a handler that reaches no 输出 yields 空, whatever its last statement evaluates to
 	c.runHand("handler-value", []handCase{
 		{"ends-with-assignment", "令状态 = “好”\n如何试？\n\t输入数\n\t输出 10 / 数\n\n\t拦截异常：\n\t\t状态 = “坏”\n令果 = （试：0）\n输出【果，状态】\n", `list[null,text("坏")]`},
